@@ -463,7 +463,7 @@ func genFormat(w *lib.Writer, r *lib.Rand, tier string) {
 	verbs := []byte("dicuxXoeEfgGs")
 	// single directives: flag subsets x widths x precisions x verbs, each with arguments from its pool
 	perDir := 1
-	keepPct := 14
+	keepPct := 12
 	nrand := 6
 	if tier == "thorough" {
 		perDir, keepPct, nrand = 6, 100, 30
